@@ -162,6 +162,10 @@ impl<R> Archive<R> {
             .chunk_descriptors
             .into_iter()
             .map(|dict| {
+                // Neither chunker nor compression ever produces an empty chunk
+                if dict.archive_size == 0 || dict.source_size == 0 {
+                    return Err(ArchiveError::invalid_archive("empty chunk"));
+                }
                 // The end of the chunk data must be addressable
                 let archive_offset = chunk_data_offset
                     .checked_add(dict.archive_offset)
